@@ -304,6 +304,9 @@ def run(ctx):
             plans.append((dict(kind=kind, nreg=3, maxb=2), 5))
             if kind != 'components':
                 plans.append((dict(kind=kind, nreg=3, maxb=1, pair=True), 4))
+                # four registries: the smallest DAG in which a registry *below*
+                # the re-based one has two bases above it to be re-ordered
+                plans.append((dict(kind=kind, nreg=4, maxb=2), 3))
         else:
             plans.append((dict(kind=kind, nreg=3, maxb=2), 30))
             plans.append((dict(kind=kind, nreg=4, maxb=2), 4))
